@@ -2,11 +2,14 @@
 spec/VbftSelect.tla (+VbftSelectMC.tla, TraceVbftSelect.tla); driver harness/cmd/vd-vbft select.
   1. P-MC      : PropC40 on the bit-exact transcription of calcParticipant / calcParticipantPeers /
                  buildParticipantConfig for EVERY 2-byte seed on tables of length <= 8 (scaled layout: 16 slots).
-  2. P-VALIDATE: chain configs built by the real GenesisChainConfig from pools of N = 4..10; the real
+  2. P-VALIDATE: chain configs built by the real GenesisChainConfig from pools of N = 4..10 and of N = 40..49 (thorough
+                 13..64), plus hand-made skewed position tables in which one or two validators hold a single position; the real
                  buildParticipantConfig (seed from the real getParticipantSelectionSeed), calcParticipantPeers and
                  calcParticipant are called (each twice: other server index, deep-copied config) on random and
                  degenerate seeds; TLC recomputes every output on the real layout (64-byte seed, 512 slots) and
-                 evaluates the monitor predicates on every logged output.
+                 evaluates the monitor predicates on every logged output.  On the large / skewed configs (where the
+                 committer window of 240 slots often runs dry) every draw is judged by the monitor and the first few per
+                 config are also recomputed.
 """
 import json
 
@@ -70,10 +73,11 @@ def run(ctx):
     ctx.cov["evaluations"] = len(events)
     ctx.cov["distinct_nontrivial"] = len(distinct)
     return ctx.finish(
-        rule="P-VALIDATE: %d recorded calls (%d configs from GenesisChainConfig for N=4..10, %d buildParticipantConfig draws of which "
-             "%d returned a selection, plus calcParticipantPeers / calcParticipant on all-zero, all-0xFF, single-bit, sparse, "
+        rule="P-VALIDATE: %d recorded calls (%d configs: GenesisChainConfig tables for N=4..10 and N>=40, skewed hand-made tables; "
+             "%d buildParticipantConfig draws of which %d returned a selection - each judged by the monitor, %d also recomputed; plus calcParticipantPeers / calcParticipant on all-zero, all-0xFF, single-bit, sparse, "
              "repeated-byte and random seeds) recomputed by TLC; distinct_nontrivial = distinct non-empty selections / ranges per "
-             "config." % (len(events), len(cfgs), sum(ok_by_n.values()) + sum(err_by_n.values()), sum(ok_by_n.values())),
+             "config." % (len(events), len(cfgs), sum(ok_by_n.values()) + sum(err_by_n.values()), sum(ok_by_n.values()),
+                          sum(1 for e in events if e["op"] == "build" and e.get("re"))),
         assumptions=["a failed selection (error / empty range) is an admissible outcome; the monitor constrains returned selections",
                      "leading proposers = the first C of the C+1 proposers (what calcParticipantPeers skips)",
                      "seeds for buildParticipantConfig are SHA-512 outputs of random previous blocks; degenerate seeds are fed to "
